@@ -40,7 +40,7 @@ def main():
     bad["rt"][0][2] = [3, 1]          # 1 -> 3 "directly" although they are not linked
     lost = copy.deepcopy(good)
     lost["rt"][2][0] = [0, 0]         # 3 reports 1 as unknown although connected
-    cfg = "INIT TInit\nNEXT TNext\nCONSTANTS\n N = 3\n MaxLinks = 0\n ForestOnly = FALSE\nINVARIANT Report\nCHECK_DEADLOCK FALSE\n"
+    cfg = "INIT TInit\nNEXT TNext\nCONSTANTS\n N = 3\n MaxLinks = 0\n ForestOnly = FALSE\n SinglePass = FALSE\nINVARIANT Report\nCHECK_DEADLOCK FALSE\n"
     v = verdicts("RoutingTrace", cfg, {"states": [good, bad, lost], "steps": [{"pre": 1, "post": 1, "a": 1, "b": 3}]})
     ok &= expect("routing: correct tables accepted", 1 not in v)
     ok &= expect("routing: wrong next hop rejected", 2 in v and "valid" in v[2])
@@ -82,6 +82,41 @@ def main():
     ok &= expect("physical: corrupted label rejected", "label" in kinds.get(3, ()))
     ok &= expect("physical: blunt event rejected", "not-sharp" in kinds.get(4, ()))
     ok &= expect("physical: spurious event rejected", "spurious-event" in kinds.get(5, ()))
+    # ---- SuiteTrace ------------------------------------------------------------------------------------------------
+    eop = {"tai_utc": 36, "ut1_utc": 175602}
+    z = [0, 0, 0]
+    date = {"k": "date", "form": "fields", "lab": "UTC", "rd": [58000, 100, 0], "inst": [58000, 136, 0], "eop": eop, "off": [36, 0]}
+    date_bad = dict(date, inst=[58000, 100, 0])                                   # labelled, not converted
+    scale = {"k": "scale", "lab": "UTC", "inst": [58000, 136, 0], "new": "TT", "inst2": [58000, 136, 0], "asked": "TT", "same_eop": True}
+    scale_bad = dict(scale, inst2=[58000, 136, 20])                               # 2 us away between exact scales
+    plus = {"k": "plus", "lab": "UTC", "inst": [58000, 136, 0], "off": [36, 0], "dt": [0, 86399, 5000000], "lab2": "UTC",
+            "inst2": [58001, 135, 5000000], "off2": [36, 0], "same_eop": True}
+    plus_bad = dict(plus, inst2=[58001, 135, 5000100])
+    minus = {"k": "minus", "inst": [58001, 0, 0], "inst2": [58000, 86399, 0], "td": [0, 1, 0]}
+    minus_bad = dict(minus, td=[0, 2, 0])
+    it = {"k": "iter", "kind": "analytical", "cls": "Kepler", "listeners": 1, "mode": "range", "start": [58000, 0, 0], "stop": [58000, 100, 0],
+          "step": [0, 40, 0], "hasstep": True, "inclusive": True, "dates": [], "lo": z, "hi": z, "strict": False, "status": "complete",
+          "out": [[[58000, 0, 0], ""], [[58000, 12, 0], "AOS"], [[58000, 40, 0], ""], [[58000, 80, 0], ""]]}
+    it_short = dict(it, out=it["out"][:3])                                        # stops one step early
+    it_beyond = dict(it, out=it["out"] + [[[58000, 120, 0], ""]])
+    it_event = dict(it, out=[it["out"][0], it["out"][2], it["out"][1], it["out"][3]])  # event after the sample that follows it
+    evs = [date, date_bad, scale, scale_bad, plus, plus_bad, minus, minus_bad, it, it_short, it_beyond, it_event]
+    from lib.tlc import RawTla
+    from lib import eopgen
+    from lib.ctx import REPO
+    name, mc, cl = tlc.wrap("SuiteTrace", {"Days": set(), "Sods": RawTla("{}"), "EdgeSods": RawTla("{}"), "Deltas": RawTla("{}"), "MaxSteps": 0},
+                            name="MCSuiteTraceSelf")
+    cfg = "INIT TInit\nNEXT TNext\n" + cl + "INVARIANT Report\nCHECK_DEADLOCK FALSE\n"
+    eopmod = eopgen.eop_module(REPO, [51544, 51545])[0]
+    v = verdicts("SuiteTrace", cfg, {"events": evs}, extra={name + ".tla": mc, "EopData.tla": eopmod}, name=name)
+    ok &= expect("suite: correct events accepted", not ({1, 3, 5, 7, 9} & set(v)))
+    ok &= expect("suite: labelled-not-converted date rejected", "date-instant" in v.get(2, ()))
+    ok &= expect("suite: relabel moving the instant rejected", "relabel-exact" in v.get(4, ()))
+    ok &= expect("suite: addition off by 10 us rejected", "plus-reading" in v.get(6, ()))
+    ok &= expect("suite: wrong difference rejected", "minus-instant" in v.get(8, ()))
+    ok &= expect("suite: iteration stopping early rejected", "range-stops-early" in v.get(10, ()))
+    ok &= expect("suite: iteration beyond stop rejected", "range-beyond-stop" in v.get(11, ()))
+    ok &= expect("suite: misplaced event rejected", bool({"stream-ordered", "stream-between"} & set(v.get(12, ()))))
     return 0 if ok else 1
 
 
